@@ -71,4 +71,4 @@ Definition gen_delta_seconds (v_before : dt) (v_after : dt) : M fexp :=
   (bindM (lift (dt_sub v_after v_before)) (fun v_delta => (ret (td_total_seconds v_delta)))).
 
 Definition gen_is_soon (v_dt : targ) (v_window : Z) : M bool :=
-  (bindM (bindM (gen_utcnow false) (fun t1_ => (lift (dt_add_td t1_ (td_of_seconds v_window))))) (fun v_soon => (bindM (bindM (lift (as_dt v_dt)) gen_normalize_time) (fun t2_ => (lift (dt_cmp CLe t2_ v_soon)))))).
+  (match v_dt with TStr v_dt => (bindM (gen_parse_isotime v_dt) (fun v_dt => (bindM (bindM (gen_utcnow false) (fun t1_ => (lift (dt_add_td t1_ (td_of_seconds v_window))))) (fun v_soon => (bindM (gen_normalize_time v_dt) (fun t2_ => (lift (dt_cmp CLe t2_ v_soon)))))))) | TDt v_dt => (bindM (bindM (gen_utcnow false) (fun t3_ => (lift (dt_add_td t3_ (td_of_seconds v_window))))) (fun v_soon => (bindM (gen_normalize_time v_dt) (fun t4_ => (lift (dt_cmp CLe t4_ v_soon)))))) end).
